@@ -100,7 +100,8 @@ fn leaf_mut<'a>(v: &'a mut Value, path: &[String]) -> Option<&'a mut Value> {
 }
 
 pub fn run(args: &[String]) -> i32 {
-    let root = arg(args, "--scenarios").unwrap_or("/repo/test_scenarios");
+    let root_default = format!("{}/test_scenarios", crate::util::repo_root());
+    let root = arg(args, "--scenarios").unwrap_or(&root_default);
     let draws: usize = arg(args, "--draws").and_then(|s| s.parse().ok()).unwrap_or(5);
     let traces = arg(args, "--traces").expect("--traces");
     let out_path = arg(args, "--out").expect("--out");
